@@ -27,7 +27,7 @@ from ..cfg import cfg_of
 from ..core import Ctx
 from ..loader import AnalysisError, FunctionInfo, norm, walk_scope
 from ..resolve import call_name, last_attr
-from ..util import calls, mini_eval, names_in, one, path_text, some, txt
+from ..util import calls, mini_eval, names_in, one, path_text, txt
 from ._g5_helpers import AbsObj, Interp, Raised, browser_origin
 
 META = {
@@ -380,7 +380,7 @@ def run(ctx: Ctx) -> None:
     ctx.check(ucfg.exit not in r, "RF-DOM", "cookie-mac-dominates-return", unpack, g, ok="_unpack_oauth_cookie returns only after compare_digest matched",
               bad="a path returns cookie fields without a matching MAC", path=path_text(ucfg, unpack, {ucfg.entry}, {ucfg.exit}, avoid_edges=ok_edges) if ucfg.exit in r else [])
     # MAC keyed with the session key over the variable that is parsed afterwards
-    usl = Slicer(ctx, unpack)
+    Slicer(ctx, unpack)
     key_param = [a.arg for a in unpack.node.args.args][1] if len(unpack.node.args.args) > 1 else ""
     keyed = bool(mc.args) and isinstance(mc.args[0], ast.Name) and mc.args[0].id == key_param
     ctx.check(keyed, "RF-DOM", "cookie-mac-keyed-with-session-key", unpack, mc, ok=f"MAC is keyed with parameter `{key_param}`", bad="the expected MAC is not keyed with the session key")
@@ -471,7 +471,6 @@ def run(ctx: Ctx) -> None:
     req_state_vars = {t.id for n in walk_scope(cb.node) if isinstance(n, ast.Assign) and isinstance(n.value, ast.Call) and last_attr(n.value) == "get_param"
                       and n.value.args and isinstance(n.value.args[0], ast.Constant) and n.value.args[0].value == "state" for t in n.targets if isinstance(t, ast.Name)}
     sg, lbl = _equality_guard(cb, cookie_state_vars | req_state_vars, "state test in the callback")
-    sc = sg.test
     s_ok = ccfg.test_edges(sg, lbl)
     r2 = ccfg.reach({ccfg.entry}, avoid_edges=s_ok)
     ctx.check(not (r2 & ccfg.attempt(ex)), "RF-DOM", "exchange-dominated-by-state-match", cb, sg, ok="the exchange is reachable only through the matching edge of the state comparison",
